@@ -36,6 +36,8 @@ type RevAPI struct {
 	Note    func(int) `notify:"true"`
 	// Stubborn's client-side handler does not look at its context: it outlives the connection it was called on
 	Stubborn func(context.Context, int) (int, error)
+	// IdentRetry: a retry-tagged reverse method without a context parameter
+	IdentRetry func(int) (int, error) `retry:"true" rpc_method:"Rev.Ident"`
 }
 
 type ctl struct {
@@ -172,6 +174,7 @@ type One struct {
 	Val    int
 	Err    string
 	TookMs int64
+	After  bool // made after the calls of the scenario proper (Spec.Twice): the connection is certainly gone
 }
 
 type Out struct {
@@ -336,7 +339,15 @@ func (s *RS) Run(ctx context.Context, sp Spec) (Out, error) {
 	}
 	if sp.Twice {
 		f = rc.Ident
-		calls = append(calls, one(900))
+		o := one(900)
+		o.After = true
+		calls = append(calls, o)
+		// the same through a retry-tagged method that takes no context: a connection that is gone for good
+		// is not a temporary failure, the call must fail like any other
+		f = func(_ context.Context, a int) (int, error) { return rc.IdentRetry(a) }
+		o = one(901)
+		o.After = true
+		calls = append(calls, o)
 	}
 	out.Calls = calls
 	return *out, nil
@@ -627,13 +638,14 @@ func Gone(d *fw.Driver, res *fw.Result, seed int64, lc lossCase, base int) error
 	} else {
 		for i, o := range out.Calls {
 			which := "the reverse call in progress"
-			if i == len(out.Calls)-1 {
+			if o.After {
 				which = "a reverse call started after the loss"
 			}
+			_ = i
 			if o.Err == "" {
 				if o.Val/1000000 != victim.id {
 					res.Add(fw.Finding{Kind: "monitor", Signature: sig + " answered by another client", Detail: fmt.Sprintf("%s returned %d: client %d answered a reverse call made while serving client %d", which, o.Val, o.Val/1000000, victim.id)})
-				} else if i == len(out.Calls)-1 && lc.Kind != "close" || (lc.Point == "during") {
+				} else if o.After && lc.Kind != "close" || (lc.Point == "during") {
 					// a result can only be genuine if the exchange completed before the loss
 					res.Add(fw.Finding{Kind: "monitor", Signature: sig + " result after loss", Detail: fmt.Sprintf("%s returned the value %d although the connection was gone before the client could answer", which, o.Val)})
 				}
@@ -874,6 +886,9 @@ func Run(d *fw.Driver, res *fw.Result, seed int64, thorough bool) error {
 		if err := StaleAnswer(d, res, seed, k, base); err != nil {
 			return err
 		}
+	}
+	if err := FormatterOrder(res); err != nil {
+		return err
 	}
 	return Absent(d, res, seed)
 }
